@@ -161,7 +161,7 @@ class ThroughParse(_DateHarness):
              'instances of a host subclass of datetime.datetime'
 
     def cases(self, tier):
-        ms = self.months(tier) if tier == 'thorough' else (1, 2, 3, 12)
+        ms = self.months(tier)
         # host = the dates are instances of a subclass of datetime.datetime (an application's own timestamp class)
         return [{'month': m} for m in ms] + [{'month': m, 'host': 1} for m in ms[:2]]
 
